@@ -7,22 +7,6 @@ Local Open Scope N_scope.
 
 (* ---------- ids ---------- *)
 
-Lemma id_of_index_inj i j : N.of_nat i < 2 ^ 31 -> N.of_nat j < 2 ^ 31 -> id_of_index i = id_of_index j -> i = j.
-Proof.
-  unfold id_of_index. intros Hi Hj E.
-  assert (P31 : 2 ^ 31 = 2147483648) by reflexivity.
-  assert (Q32 : 2 ^ 32 = 4294967296) by reflexivity.
-  rewrite P31 in *. rewrite Q32 in *.
-  assert (Bi : 2 * (N.of_nat i + 1) <= 4294967296) by lia.
-  assert (Bj : 2 * (N.of_nat j + 1) <= 4294967296) by lia.
-  destruct (N.eq_dec (2 * (N.of_nat i + 1)) 4294967296) as [Ei|Ni];
-  destruct (N.eq_dec (2 * (N.of_nat j + 1)) 4294967296) as [Ej|Nj].
-  - lia.
-  - rewrite Ei in E. rewrite N.mod_same in E by lia. rewrite N.mod_small in E by lia. lia.
-  - rewrite Ej in E. rewrite N.mod_same in E by lia. rewrite N.mod_small in E by lia. lia.
-  - rewrite !N.mod_small in E by lia. lia.
-Qed.
-
 (* two calls of one client whose issue indices differ by less than 2^31 have different ids *)
 Theorem ids_distinct : forall i j : nat, i <> j ->
   (Z.abs (Z.of_nat i - Z.of_nat j) < 2 ^ 31)%Z -> id_of_index i <> id_of_index j.
@@ -31,22 +15,30 @@ Proof.
   assert (Q32 : 2 ^ 32 = 4294967296) by reflexivity. rewrite Q32 in E.
   assert (Hz : (2 ^ 31 = 2147483648)%Z) by reflexivity. rewrite Hz in Hd.
   (* equal residues: the difference is a multiple of 2^32, but it is non-zero and below 2^32 *)
-  pose proof (N.div_mod (2 * (N.of_nat i + 1)) 4294967296 ltac:(lia)) as Di.
-  pose proof (N.div_mod (2 * (N.of_nat j + 1)) 4294967296 ltac:(lia)) as Dj.
+  pose proof (N.div_mod (2 * (N.of_nat i + 1) + 1) 4294967296 ltac:(lia)) as Di.
+  pose proof (N.div_mod (2 * (N.of_nat j + 1) + 1) 4294967296 ltac:(lia)) as Dj.
   rewrite E in Di.
-  set (qi := (2 * (N.of_nat i + 1)) / 4294967296) in *.
-  set (qj := (2 * (N.of_nat j + 1)) / 4294967296) in *.
-  set (r := (2 * (N.of_nat j + 1)) mod 4294967296) in *.
+  set (qi := (2 * (N.of_nat i + 1) + 1) / 4294967296) in *.
+  set (qj := (2 * (N.of_nat j + 1) + 1) / 4294967296) in *.
+  set (r := (2 * (N.of_nat j + 1) + 1) mod 4294967296) in *.
   assert (qi = qj \/ qi < qj \/ qj < qi) as [Q|[Q|Q]] by lia; nia.
 Qed.
 
-Lemma next_id_index n : next_id ((2 * N.of_nat n) mod 2 ^ 32) = id_of_index n.
+Lemma id_of_index_inj i j : N.of_nat i < 2 ^ 31 -> N.of_nat j < 2 ^ 31 -> id_of_index i = id_of_index j -> i = j.
+Proof.
+  intros Hi Hj E. destruct (Nat.eq_dec i j) as [|Ne]; [assumption|exfalso].
+  assert (P31 : 2 ^ 31 = 2147483648) by reflexivity. rewrite P31 in *.
+  apply (ids_distinct i j Ne); [|exact E].
+  assert (Hz : (2 ^ 31 = 2147483648)%Z) by reflexivity. rewrite Hz. lia.
+Qed.
+
+Lemma next_id_index n : next_id ((2 * N.of_nat n + 1) mod 2 ^ 32) = id_of_index n.
 Proof.
   unfold next_id, id_of_index.
   rewrite N.add_mod_idemp_l by (compute; discriminate). f_equal. lia.
 Qed.
 
-Lemma next_id_mid n : next_id ((2 * N.of_nat n) mod 2 ^ 32) = (2 * N.of_nat (S n)) mod 2 ^ 32.
+Lemma next_id_mid n : next_id ((2 * N.of_nat n + 1) mod 2 ^ 32) = (2 * N.of_nat (S n) + 1) mod 2 ^ 32.
 Proof.
   unfold next_id. rewrite N.add_mod_idemp_l by (compute; discriminate). f_equal. lia.
 Qed.
@@ -147,15 +139,16 @@ Proof. intros. destruct (mk_frame_fields ty (fkey g) p (f_tag g)) as [_ [A [_ B]
 
 Section Proofs.
 Variable k : cfg.
+Variable filter_pass : N -> bool.
 Variable target : N -> N -> N -> tgt.
 Variable fres : N -> N -> N -> bytes -> bytes.
 Variable okargs : N -> N -> N -> bytes -> bool.
 Variable callerr : N -> N -> N -> bytes -> bool.
 
-Notation step := (step k target fres okargs callerr).
-Notation exec := (exec k target fres okargs callerr).
+Notation step := (step k filter_pass target fres okargs callerr).
+Notation exec := (exec k filter_pass target fres okargs callerr).
 Notation answer := (answer k).
-Notation do_srv := (do_srv k target).
+Notation do_srv := (do_srv k filter_pass target).
 Notation do_srvdrop := (do_srvdrop k).
 Notation do_mbox := (do_mbox k target fres okargs callerr).
 
@@ -201,7 +194,7 @@ Record invA (st : state) : Prop := {
   a_c2s : forall c g, In g (c2s st c) -> req_shape st c g;
   a_mails : forall c g, In (c, g) (mails st) -> req_shape st c g;
   a_s2c : forall c g, In g (s2c st c) -> resp_shape st c g;
-  a_mid : forall c, mid st c = (2 * N.of_nat (issued st c)) mod 2 ^ 32;
+  a_mid : forall c, mid st c = (2 * N.of_nat (issued st c) + 1) mod 2 ^ 32;
   a_alloc : forall c i, (i < issued st c)%nat -> k_alloc (calls st c i) = true /\ snd (k_key (calls st c i)) = id_of_index i;
   a_unalloc : forall c i, (issued st c <= i)%nat -> calls st c i = call0;
   a_rawexcl : forall c, rawc st c = true -> issued st c = O;
@@ -541,8 +534,8 @@ Proof.
   assert (I1 : invA (set_mails st r)).
   { eapply invA_sub; [exact I| | | | | | | | |]; fields; auto. }
   assert (Hg1 : req_shape (set_mails st r) c g) by (eapply req_shape_same; [exact Hg| | | |]; reflexivity).
-  destruct (target _ _ _); try (apply invA_answer; assumption).
   destruct (negb (runs k (f_type g))); [exact I1|].
+  destruct (target _ _ _); try (apply invA_answer; assumption).
   destruct (negb (okargs _ _ _ _)); [apply invA_answer; assumption|].
   set (st2 := set_ex (set_mails st r) _).
   assert (I2 : invA st2) by (eapply invA_sub; [exact I1| | | | | | | | |]; fields; auto).
@@ -788,8 +781,8 @@ Proof.
   assert (IB1 : invB (set_mails st r)).
   { constructor; fields; try apply IB. intro t. pose proof (b_tok st IB t). rewrite (Cn (is_req t)) in H. lia. }
   assert (Hg1 : req_shape (set_mails st r) c g) by (eapply req_shape_same; [exact Hg| | | |]; reflexivity).
-  destruct (target _ _ _); try (apply invB_answer; assumption).
   rewrite runs_clean. destruct (is_cp (f_type g)) eqn:Ecp; cbn [negb]; [|exact IB1].
+  destruct (target _ _ _); try (apply invB_answer; assumption).
   destruct (negb (okargs _ _ _ _)); [apply invB_answer; assumption|].
   set (st2 := set_ex (set_mails st r) _).
   assert (IA2 : invA st2) by (eapply invA_sub; [exact IA1| | | | | | | | |]; fields; auto).
@@ -888,8 +881,8 @@ Proof.
     destruct (_ =? _); [apply invD_answer|]; exact I1.
   - unfold Call.do_mbox. destruct (take_mail _ _ _) as [[[c g] r]|]; [|exact I].
     assert (I1 : invD (set_mails st r)) by (eapply invD_calls; [exact I|intros; left; reflexivity]).
-    destruct (target _ _ _); try (apply invD_answer; exact I1).
-    destruct (negb (runs _ _)); [exact I1|]. destruct (negb (okargs _ _ _ _)); [apply invD_answer; exact I1|].
+    destruct (negb (runs _ _)); [exact I1|]. destruct (target _ _ _); try (apply invD_answer; exact I1).
+    destruct (negb (okargs _ _ _ _)); [apply invD_answer; exact I1|].
     set (st2 := set_ex _ _). assert (I2 : invD st2) by (eapply invD_calls; [exact I|intros; left; reflexivity]).
     destruct (_ =? _); [exact I2|]. destruct (callerr _ _ _ _); apply invD_answer; exact I2.
   - unfold do_cli. destruct (s2c st c) as [|g q]; [exact I|]. eapply invD_calls; [exact I|].
@@ -1051,8 +1044,8 @@ Proof.
     unfold Call.do_mbox. destruct (take_mail s o (mails st)) as [[[c g] r]|] eqn:E; [|exact I].
     destruct (take_mail_spec _ _ _ _ _ _ E) as [Hin _].
     assert (I1 : invC (set_mails st r)) by (eapply invC_same; [exact I|split; reflexivity|auto]).
-    destruct (target _ _ _); try (apply invC_answer_err, I1).
     rewrite runs_clean. destruct (is_cp (f_type g)) eqn:Ecp; cbn [negb]; [|exact I1].
+    destruct (target _ _ _); try (apply invC_answer_err, I1).
     destruct (negb (okargs _ _ _ _)); [apply invC_answer_err, I1|].
     (* the method body runs: ex of the mail's tag was 0 *)
     assert (Ex0 : ex st (f_tag g) = O).
@@ -1121,6 +1114,8 @@ Definition in_flight (st : state) (c i : nat) : Prop :=
   (exists g, In g (c2s st c) /\ is_callframe (TCall c i) g = true) \/
   (exists g, In (c, g) (mails st) /\ is_callframe (TCall c i) g = true) \/
   (exists g, In g (s2c st c) /\ f_tag g = TCall c i).
+
+Hypothesis Hcallpass : filter_pass T_Call = true.   (* the filter lets Call frames through *)
 
 Definition invE (st : state) : Prop :=
   forall c i, k_waiting (calls st c i) = true -> k_chan (calls st c i) = None ->
@@ -1219,7 +1214,7 @@ Proof.
       - right; right. exists x. auto. }
     destruct (negb (filter_pass (f_type g))) eqn:Ef.
     + apply Keep; unfold st1; fields; auto. intros j Hj. apply callframe_type in Hj as [_ Ty].
-      rewrite Ty in Ef. discriminate.
+      rewrite Ty, Hcallpass in Ef. discriminate.
     + destruct (target _ _ _).
       1,2: destruct (answer_frames st1 c g T_Error err_payload) as [_ [_ [_ [E4 [E5 [E6 _]]]]]];
            apply Keep; [rewrite E4; reflexivity|intros; rewrite E5; assumption|intros; rewrite E6; assumption
@@ -1272,10 +1267,10 @@ Proof.
       intros j Hj. pose proof (HP j Hj) as NP. apply callframe_type in Hj as [Tg _]. now apply answer_in_flight. }
     assert (NP : forall j, is_callframe (TCall c j) g = true -> f_type g <> T_Post).
     { intros j Hj. apply callframe_type in Hj as [_ Ty]. rewrite Ty. discriminate. }
-    destruct (target _ _ _); try (apply Ans; auto).
     destruct (negb (runs k (f_type g))) eqn:Er.
     + apply Keep; fields; auto. intros j Hj. apply callframe_type in Hj as [_ Ty]. unfold runs in Er. rewrite Ty in Er. discriminate.
-    + destruct (negb (okargs _ _ _ _)); [apply Ans; auto|].
+    + destruct (target _ _ _); try (apply Ans; auto).
+      destruct (negb (okargs _ _ _ _)); [apply Ans; auto|].
       destruct (f_type g =? T_Post) eqn:Ep.
       * apply Keep; fields; auto. intros j Hj. apply callframe_type in Hj as [_ Ty]. rewrite Ty in Ep. discriminate.
       * destruct (callerr _ _ _ _); apply Ans; auto.
@@ -1313,9 +1308,10 @@ Proof.
   - unfold Call.do_srvdrop. destruct (c2s st c1); [lia|]. destruct (_ =? _); [|cbn; lia].
     destruct (answer_frames (set_c2s st (upd (c2s st) c1 l)) c1 f T_Error err_payload) as [_ [E _]]. rewrite E. cbn; lia.
   - unfold Call.do_mbox. destruct (take_mail _ _ _) as [[[c0 g] r]|]; [|lia].
+    destruct (negb (runs _ _)); [cbn; lia|].
     destruct (target _ _ _);
       try (match goal with |- context [answer ?a ?b ?c ?d ?e] => destruct (answer_frames a b c d e) as [_ [E _]]; rewrite E end; cbn; lia).
-    destruct (negb (runs _ _)); [cbn; lia|]. destruct (negb (okargs _ _ _ _)).
+    destruct (negb (okargs _ _ _ _)).
     + match goal with |- context [answer ?a ?b ?c ?d ?e] => destruct (answer_frames a b c d e) as [_ [E _]]; rewrite E end; cbn; lia.
     + destruct (_ =? _); [cbn; lia|]. destruct (callerr _ _ _ _);
       match goal with |- context [answer ?a ?b ?c ?d ?e] => destruct (answer_frames a b c d e) as [_ [E _]]; rewrite E end; cbn; lia.
@@ -1328,18 +1324,31 @@ Proof.
   pose proof (issued_mono st l c). pose proof (IH (step st l) c). lia.
 Qed.
 
-Definition inv (st : state) : Prop := invA st /\ invB st /\ invC st /\ invD st /\ invE st.
+Definition inv (st : state) : Prop := invA st /\ invB st /\ invC st /\ invD st.
 
 Lemma inv_init : inv init.
-Proof. split; [apply invA_init|]. split; [apply invB_init|]. split; [apply invC_init|]. split; [apply invD_init|apply invE_init]. Qed.
+Proof. split; [apply invA_init|]. split; [apply invB_init|]. split; [apply invC_init|apply invD_init]. Qed.
+
+Lemma bounded_pre st l r : bounded (exec st (l :: r)) -> bounded st.
+Proof. intros Bd c. pose proof (Bd c). pose proof (issued_mono_exec (l :: r) st c) as M. lia. Qed.
+
+Lemma inv_step st l : inv st -> bounded st -> inv (step st l).
+Proof.
+  intros [IA [IB [IC ID]]] Bd.
+  split; [now apply invA_step|]. split; [now apply invB_step|]. split; [now apply invC_step|now apply invD_step].
+Qed.
 
 Lemma inv_exec ls : forall st, inv st -> bounded (exec st ls) -> inv (exec st ls).
 Proof.
-  induction ls as [|l r IH]; intros st I Bd; cbn [Call.exec] in *; [exact I|].
-  assert (Bd0 : bounded st).
-  { intro c. pose proof (Bd c). pose proof (issued_mono_exec (l :: r) st c) as M. cbn [Call.exec] in M. lia. }
-  destruct I as [IA [IB [IC [ID IE]]]]. apply IH; [|exact Bd].
-  split; [now apply invA_step|]. split; [now apply invB_step|]. split; [now apply invC_step|]. split; [now apply invD_step|now apply invE_step].
+  induction ls as [|l r IH]; intros st I Bd; [exact I|].
+  pose proof (bounded_pre st l r Bd) as Bd0. cbn [Call.exec] in *. apply IH; [|exact Bd]. now apply inv_step.
+Qed.
+
+Lemma invE_exec ls : forall st, inv st -> invE st -> bounded (exec st ls) -> invE (exec st ls).
+Proof.
+  induction ls as [|l r IH]; intros st I IE Bd; [exact IE|].
+  pose proof (bounded_pre st l r Bd) as Bd0. cbn [Call.exec] in *.
+  apply IH; [now apply inv_step| |exact Bd]. destruct I as [IA _]. now apply invE_step.
 Qed.
 
 (* mailbox_once: the only step that changes an execution counter is the mailbox goroutine
@@ -1360,9 +1369,9 @@ Proof.
   - left. unfold Call.do_srvdrop. destruct (c2s st c1); [reflexivity|]. destruct (_ =? _); [|reflexivity].
     match goal with |- context [answer ?a ?b ?c ?d ?e] => destruct (answer_frames a b c d e) as [_ [_ [_ [_ [_ [_ [_ [_ E]]]]]]]]; rewrite E end. reflexivity.
   - unfold Call.do_mbox. destruct (take_mail s o (mails st)) as [[[c g] r]|] eqn:E; [|left; reflexivity].
+    destruct (runs k (f_type g)) eqn:Er; cbn [negb]; [|left; reflexivity].
     destruct (target _ _ _);
       try (left; match goal with |- context [answer ?a ?b ?c ?d ?e] => destruct (answer_frames a b c d e) as [_ [_ [_ [_ [_ [_ [_ [_ X]]]]]]]]; rewrite X end; reflexivity).
-    destruct (runs k (f_type g)) eqn:Er; cbn [negb]; [|left; reflexivity].
     destruct (negb (okargs _ _ _ _)).
     + left. match goal with |- context [answer ?a ?b ?c ?d ?e] => destruct (answer_frames a b c d e) as [_ [_ [_ [_ [_ [_ [_ [_ X]]]]]]]]; rewrite X end. reflexivity.
     + assert (X : forall st', ex st' = updt (ex st) (f_tag g) (S (ex st (f_tag g))) ->
@@ -1393,7 +1402,7 @@ Theorem call_outcome : forall ls, let st := exec init ls in bounded st ->
      (rawty st c n = T_Post -> back st (TRaw c n) = O) /\
      (is_cp (rawty st c n) = false -> ex st (TRaw c n) = O)).
 Proof.
-  intros ls st Bd. destruct (inv_exec ls init inv_init Bd) as [IA [IB [IC [ID IE]]]]. fold st in IA, IB, IC, ID, IE.
+  intros ls st Bd. destruct (inv_exec ls init inv_init Bd) as [IA [IB [IC ID]]]. fold st in IA, IB, IC, ID.
   split.
   - intros c i. split; [apply (d_ret st ID)|]. split; [apply (c_result st IC)|]. split.
     + pose proof (b_tok st IB (TCall c i)). lia.
@@ -1413,7 +1422,8 @@ Theorem call_exactly_one_when_drained : forall ls, let st := exec init ls in bou
     k_returns (calls st c i) = 1%nat \/
     (k_returns (calls st c i) = O /\ k_waiting (calls st c i) = true /\ exists g, k_chan (calls st c i) = Some g).
 Proof.
-  intros ls st Bd c i Hs E1 E2 E3. destruct (inv_exec ls init inv_init Bd) as [IA [IB [IC [ID IE]]]]. fold st in IA, IB, IC, ID, IE.
+  intros ls st Bd c i Hs E1 E2 E3. destruct (inv_exec ls init inv_init Bd) as [IA [IB [IC ID]]].
+  pose proof (invE_exec ls init inv_init invE_init Bd) as IE. fold st in IA, IB, IC, ID, IE.
   destruct (k_waiting (calls st c i)) eqn:W; [|left; now apply (d_sent st ID)].
   right. split; [apply (d_wait st ID), W|]. split; [reflexivity|].
   destruct (k_chan (calls st c i)) as [g|] eqn:Ch; [now exists g|exfalso].
@@ -1437,9 +1447,10 @@ Proof.
   - unfold Call.do_srvdrop. destruct (c2s st c1); [lia|]. destruct (_ =? _); [|cbn; lia].
     destruct (answer_frames (set_c2s st (upd (c2s st) c1 l)) c1 f T_Error err_payload) as [_ [E _]]. rewrite E. cbn; lia.
   - unfold Call.do_mbox. destruct (take_mail _ _ _) as [[[c0 g] r]|]; [|lia].
+    destruct (negb (runs _ _)); [cbn; lia|].
     destruct (target _ _ _);
       try (match goal with |- context [answer ?a ?b ?c ?d ?e] => destruct (answer_frames a b c d e) as [_ [E _]]; rewrite E end; cbn; lia).
-    destruct (negb (runs _ _)); [cbn; lia|]. destruct (negb (okargs _ _ _ _)).
+    destruct (negb (okargs _ _ _ _)).
     + match goal with |- context [answer ?a ?b ?c ?d ?e] => destruct (answer_frames a b c d e) as [_ [E _]]; rewrite E end; cbn; lia.
     + destruct (_ =? _); [cbn; lia|]. destruct (callerr _ _ _ _);
       match goal with |- context [answer ?a ?b ?c ?d ?e] => destruct (answer_frames a b c d e) as [_ [E _]]; rewrite E end; cbn; lia.
